@@ -337,9 +337,7 @@ impl<R: AsyncBufRead + Unpin> NsReader<R> {
         // match literally the start name. See `Config::check_end_names` documentation
         let result = self.reader.read_to_end_into_async(end, buf).await?;
         // `read_to_end_into_async` consumed the closing tag, so its scope is finished
-        // (as well as the scope of an `Empty` or `End` event returned just before)
-        self.pop();
-        self.ns_resolver.pop();
+        self.pop_skipped();
         Ok(result)
     }
 
